@@ -6,6 +6,7 @@
 package main
 
 import (
+	"os"
 	"bytes"
 	"fmt"
 	"sort"
@@ -89,6 +90,7 @@ type sys struct {
 	bySub   *world.RtmpPeer
 	byIDs   map[string]bool // session ids of the bystanders (not counted with the first stream's notifications)
 	bySent  int
+	curIdle int // ticks since the accepted input arrived or last sent something (capped): part of the state
 	byHooks int // hook contexts that belong to the bystander stream (created before anything else)
 }
 
@@ -99,6 +101,7 @@ func (s *sys) add(key, f string, a ...interface{}) {
 func newSys(c cfg) *sys {
 	s := &sys{c: c, w: world.New(world.Conf{"rtsp.enable": true, "_hook": true}), ended: map[int]bool{}}
 	s.w.EnableRelay(nil)
+	s.w.PsAuto = true
 	s.setupBystander()
 	for _, ev := range c.Prefix {
 		if err := s.Apply(ev); err != nil {
@@ -237,6 +240,8 @@ func (s *sys) alive(in *input) bool {
 		return in.rtsp.Accepted()
 	case "pull":
 		return !in.dial.Conn.Closed()
+	case "ps":
+		return logic.VerifPsPubSession(s.w.SM, stream) != nil
 	}
 	return true
 }
@@ -257,6 +262,7 @@ func (s *sys) endCur() {
 
 func (s *sys) accept(in *input) {
 	s.cur = in
+	s.curIdle = 0
 	s.accepted = append(s.accepted, in.id)
 }
 
@@ -349,6 +355,9 @@ func (s *sys) applyMain(ev string) error {
 		hookMsgsBefore, _ = w.Hooks[hooksBefore-1].Counts()
 	}
 	var err error
+	if (ev == "Out" || ev == "KickIn" || ev == "P" || ev == "O:close") && s.cur == nil {
+		return fmt.Errorf("event %s needs an accepted input, but the prefix left none this time (it did when the prefix was first explored)", ev)
+	}
 	newIn := func(kind string) *input { s.nin++; return &input{id: s.nin, kind: kind} }
 	refusedOK := func(kind string, accepted bool) {
 		if curBefore != nil && accepted {
@@ -397,7 +406,13 @@ func (s *sys) applyMain(ev string) error {
 			tcp = 1
 			in.tcp = true
 		}
-		r := w.SM.CtrlStartRtpPub(base.ApiCtrlStartRtpPubReq{StreamName: stream, Port: 0, TimeoutMs: 0, IsTcpFlag: tcp})
+		// an accepted session never times out by itself (timeout 0); a call that must be refused asks for
+		// a one-second timeout: nothing of a refused call may rub off on the accepted input
+		timeoutMs := 0
+		if curBefore != nil {
+			timeoutMs = 1000
+		}
+		r := w.SM.CtrlStartRtpPub(base.ApiCtrlStartRtpPubReq{StreamName: stream, Port: 0, TimeoutMs: timeoutMs, IsTcpFlag: tcp})
 		ok := r.ErrorCode == base.ErrorCodeSucc
 		if ok {
 			w.PsExpected++
@@ -441,6 +456,7 @@ func (s *sys) applyMain(ev string) error {
 		err = w.Settle()
 	case "P":
 		s.send(s.cur)
+		s.curIdle = 0
 		err = w.Settle()
 	case "FeedOld":
 		s.send(s.oldCust)
@@ -506,6 +522,9 @@ func (s *sys) applyMain(ev string) error {
 		err = w.Settle()
 	case "T":
 		err = w.Tick()
+		if s.curIdle < 3 {
+			s.curIdle++
+		}
 	case "D:accept":
 		pend, _ := s.pullDials()
 		d := pend[0]
@@ -551,7 +570,10 @@ func (s *sys) applyMain(ev string) error {
 	// ---- (C) the accepted input is still the accepted input
 	foreign := !(ev == "Out" || ev == "KickIn" || ev == "O:close" || (ev == "ApiStop" && curBefore != nil && curBefore.kind == "pull"))
 	if s.cur != nil && !s.alive(s.cur) {
-		if foreign && ev != "T" {
+		// (a tick may end an input through the idle check, every base.LogicCheckSessionAliveIntervalSec =
+		// 120 ticks - far beyond the depth explored here -, or a GB28181 session through its own timeout,
+		// which is 0 = never for every accepted session of this harness)
+		if foreign {
 			s.add("accepted-input-disconnected", "event %s disconnected the accepted %s input #%d", ev, s.cur.kind, s.cur.id)
 		}
 		s.endCur()
@@ -795,7 +817,7 @@ func (s *sys) Fingerprint() string {
 	if s.cur != nil {
 		k = fmt.Sprintf("%s tcp=%v sent=%d", s.cur.kind, s.cur.tcp, minI(s.cur.sent, 2))
 	}
-	fmt.Fprintf(&sb, " |cur=%s nin=%d subs=%d oldCust=%v api=%v ps=%d", k, s.nin, len(s.subs), s.oldCust != nil, s.apiOn, s.w.PsExpected)
+	fmt.Fprintf(&sb, " |cur=%s idle=%d nin=%d subs=%d oldCust=%v api=%v ps=%d", k, s.curIdle, s.nin, len(s.subs), s.oldCust != nil, s.apiOn, s.w.PsExpected)
 	pend, live := s.pullDials()
 	fmt.Fprintf(&sb, " dials=%d/%d", len(pend), len(live))
 	for _, b := range s.subs {
@@ -865,6 +887,17 @@ func main() {
 				r.Violation("infra/hang-or-nondeterminism", fmt.Sprintf("[%s] %v: %v", c.Name, tr, err), replay{c, tr})
 			},
 			OnState: func(d int, fp string, tr []string) {
+				if os.Getenv("C03_DEBUG") != "" && c.Name == "publishers+ps" {
+					only := true
+					for _, e := range tr {
+						if e != "In:ps" && e != "T" && e != "In:rtmp" {
+							only = false
+						}
+					}
+					if only {
+						fmt.Fprintf(os.Stderr, "STATE d=%d %v :: %s\n", d, tr, fp[strings.LastIndex(fp, "|cur="):])
+					}
+				}
 				r.Class(c.Name + "|" + fp)
 				if d == depth {
 					r.Sample(map[string]interface{}{"config": c.Name, "trace": tr})
